@@ -16,15 +16,20 @@ func coffShapesScenario(wantC08, wantC09 bool) *core.Scenario {
 	tails := []string{"ret", "resb8", "resb_large", "db0", "alignb16", "end_label", "end_label_after_resb", "dw_label"}
 	return &core.Scenario{
 		Name: "coff_shapes", Bound: -1,
-		Rule:   "4 labelled routines (mode-sensitive instructions) x 6 arrangements of [FORMAT]/[BITS]/[INSTRSET] (incl. no BITS at all and BITS 16) x 8 endings of the code (instruction, RESB 8, RESB 5000, DB 0, ALIGNB 16, a GLOBAL label with nothing behind it - also behind a RESB -, DW of a label) x GLOBAL {all, none}: every structural rule, .text == flat binary of the same source without FORMAT, symbol values == sentinel-located offsets",
+		Rule:   "4 labelled routines (mode-sensitive instructions) x 6 arrangements of [FORMAT]/[BITS]/[INSTRSET] (incl. no BITS at all and BITS 16) x 8 endings of the code (instruction, RESB 8, RESB 5000, DB 0, ALIGNB 16, a GLOBAL label with nothing behind it - also behind a RESB -, DW of a label) x GLOBAL {all, none} x {all branches short, a Jcc and a CALL across 300 bytes (second pass-1 run)}: every structural rule, .text == flat binary of the same source without FORMAT, symbol values == sentinel-located offsets",
 		Bounds: map[string]any{"heads": heads, "tails": tails},
 		Build: func(c *core.Chooser) *core.Case {
 			hd := heads[c.Pick("head", len(heads))]
 			tl := tails[c.Pick("tail", len(tails))]
 			allGlobal := !c.Bool("no_globals")
+			relax := c.Bool("long_branch") // a Jcc that does not reach with rel8: pass 1 runs a second time (branch relaxation)
 			names := [4]string{"_alpha", "_beta_long_name", "_c", "_delta123"}
 			cc := coffCase{body: "shapes", labelSentry: map[string]int{}}
-			routines := []string{"\tMOV EAX,1\n\tMOV AX,[BX+2]\n\tRET\n", "\tPUSH 0x1234\n\tRET\n", "\tMOV ECX,[ESP+4]\n\tADD WORD [0x0ff0],1\n\tRET\n", "\tHLT\n"}
+			r0 := "\tMOV EAX,1\n\tMOV AX,[BX+2]\n\tRET\n"
+			if relax {
+				r0 = "\tMOV EAX,1\n\tJNZ _delta123\n\tCALL _c\n\tRESB 300\n\tMOV AX,[BX+2]\n\tRET\n"
+			}
+			routines := []string{r0, "\tPUSH 0x1234\n\tRET\n", "\tMOV ECX,[ESP+4]\n\tADD WORD [0x0ff0],1\n\tRET\n", "\tHLT\n"}
 			var text strings.Builder
 			for i := 0; i < 4; i++ {
 				text.WriteString(names[i] + ":\n" + sentinelLine(10+i) + routines[i])
@@ -87,8 +92,8 @@ func coffShapesScenario(wantC08, wantC09 bool) *core.Scenario {
 			}
 			cc.src, cc.flat = src, flat
 			return &core.Case{
-				Key:       fmt.Sprintf("head=%s tail=%s globals=%v", hd, tl, allGlobal),
-				Feat:      feat("body", "shapes", "head", hd, "tail", tl, "globals", fmt.Sprint(allGlobal)),
+				Key:       fmt.Sprintf("head=%s tail=%s globals=%v long_branch=%v", hd, tl, allGlobal, relax),
+				Feat:      feat("body", "shapes", "head", hd, "tail", tl, "globals", fmt.Sprint(allGlobal), "long_branch", fmt.Sprint(relax)),
 				FreshRefs: false, Srcs: []string{cc.src, cc.flat},
 				Judge: func(rs []*core.Result) core.Verdict { return judgeCoff(cc, rs, wantC08, wantC09) },
 			}
